@@ -34,7 +34,7 @@ structure Bar where
 deriving Repr
 
 def U64 : Nat := 2 ^ 64
-def posCfg : Limiter.Cfg := { I := 1000000, B := 10 }
+def posCfg : Limiter.Cfg := Limiter.posCfg Limiter.LFix.current
 
 def Bar.finished (b : Bar) : Bool := b.status ≠ .inProgress
 
